@@ -1233,10 +1233,11 @@ func (fr *Frame) atSendAsserts(ins *ssa.Send, v Term, st *State) {
 			continue
 		}
 		name := strings.TrimPrefix(at.Callee, "send:")
-		if p, ok := ins.Chan.(*ssa.Parameter); !ok || p.Name() != name {
-			if ins.Chan.Name() != name {
-				continue
-			}
+		if !sendChanMatches(ins, name) {
+			continue
+		}
+		if at.Ord >= 0 && at.Ord != fr.sendOrdinal(ins, name) {
+			continue
 		}
 		ctx := fr.specCtx(st, fr.entry, fr.curBlock, fr.curIdx)
 		v.T = ins.X.Type()
@@ -1284,6 +1285,48 @@ func (fr *Frame) siteOrdinal(pat string, cc *ssa.CallCommon) int {
 	})
 	for i, s := range sites {
 		if s.cc == cc {
+			return i
+		}
+	}
+	return -1
+}
+
+// sendChanMatches: the channel operand of a send is the parameter / register called name, or a field
+// called name (x.name) of a struct value or object.
+func sendChanMatches(ins *ssa.Send, name string) bool {
+	if p, ok := ins.Chan.(*ssa.Parameter); ok && p.Name() == name {
+		return true
+	}
+	if ins.Chan.Name() == name {
+		return true
+	}
+	switch c := ins.Chan.(type) {
+	case *ssa.Field:
+		if st, ok := c.X.Type().Underlying().(*types.Struct); ok && st.Field(c.Field).Name() == name {
+			return true
+		}
+	case *ssa.UnOp:
+		if fa, ok := c.X.(*ssa.FieldAddr); ok {
+			if pt, ok := fa.X.Type().Underlying().(*types.Pointer); ok && fieldName(pt.Elem(), fa.Field) == name {
+				return true
+			}
+		}
+	}
+	return false
+}
+
+func (fr *Frame) sendOrdinal(ins *ssa.Send, name string) int {
+	var sends []*ssa.Send
+	for _, b := range fr.fn.Blocks {
+		for _, i := range b.Instrs {
+			if s, ok := i.(*ssa.Send); ok && sendChanMatches(s, name) {
+				sends = append(sends, s)
+			}
+		}
+	}
+	sort.SliceStable(sends, func(i, j int) bool { return sends[i].Pos() < sends[j].Pos() })
+	for i, s := range sends {
+		if s == ins {
 			return i
 		}
 	}
